@@ -10,13 +10,12 @@ for d in sorted(glob.glob('seeded/C*-*/')):
     prop = sid.split('-')[0]
     meta = json.load(open(d + 'meta.json'))
     patch = os.path.abspath(d + 'patch.diff')
-    if subprocess.run(['git', '-C', '/repo', 'apply', '--check', patch], capture_output=True).returncode != 0:
+    # a scratch export of /repo's HEAD with the change applied (VERIF_REPO): /repo itself is never touched
+    S = '/scratch/seed_table_repo'
+    subprocess.run(f'rm -rf {S}; mkdir -p {S}; git -C /repo archive HEAD | tar -x -C {S}', shell=True, check=True)
+    if subprocess.run(f'cd {S} && patch -p1 -s < {patch}', shell=True, capture_output=True).returncode != 0:
         rows.append((sid, 'patch does not apply', '', meta)); continue
-    subprocess.run(['git', '-C', '/repo', 'apply', patch], check=True)
-    try:
-        r = subprocess.run(['./check', prop], capture_output=True, text=True, env=env, timeout=900)
-    finally:
-        subprocess.run(['git', '-C', '/repo', 'reset', '-q', '--hard', 'HEAD'])
+    r = subprocess.run(['./check', prop], capture_output=True, text=True, env=dict(env, VERIF_REPO=S), timeout=1800)
     v = [l for l in r.stdout.splitlines() if l.startswith('VIOLATION')]
     nrep = sum(1 for l in v if 'no-failing-input-found' not in l)
     first = ''
@@ -31,5 +30,5 @@ with open('seeded/RESULTS.md', 'w') as f:
     for sid, verdict, first, meta in rows:
         what = ' '.join(meta['breaks'].split())[:230].replace('|', '\\|')
         f.write(f'| {sid} | {what} | {verdict} | `{first.replace("|", "/")}` |\n')
-print(open('seeded/RESULTS.md').read()[:600])
+subprocess.run('rm -rf /scratch/seed_table_repo', shell=True)
 print(len(rows), 'seeds;', sum(1 for r in rows if r[1].startswith('VIOLATION')), 'violations;', [r[0] for r in rows if not r[1].startswith('VIOLATION')])
